@@ -172,7 +172,8 @@ Spans of submodels differ:
             submodels={
                 copy.deepcopy(k): copy.deepcopy(v)
                 for k, v in self.__dict__['submodels'].items()
-            }
+            },
+            name=copy.deepcopy(self.__dict__['name']),
         )
 
         copied.__dict__.update(
